@@ -630,6 +630,11 @@ def c15_11(ctx):
                     and not any(isinstance(x, ast.Call) for x in ast.walk(nb.ast.value)):
                 arms.append((t, lab, nb))
     if not arms:
+        # which quantity selects the plain-secret arm is also decided by evaluation (C15.17: 1-of-n gives n copies of the secret, k >= 2 shares interpolate)
+        cells = c15_17(ctx)
+        if cells and all(r.status == "ok" for r in cells):
+            return [ctx.ok(spec, "the shares are the secret itself exactly for threshold 1: decided by the split cells (C15.17); the arm is not a plain `return` of the secret here", fn, mod,
+                           key="special-case")]
         return [ctx.err(spec, "the arm that hands out the secret itself (threshold 1) was not found", fn, mod)]
     out = []
     for t, lab, nb in arms:
@@ -884,7 +889,64 @@ def c15_16(ctx):
 
 
 
+def c15_17(ctx):
+    if not hasattr(ctx, "_c15_17"):
+        ctx._c15_17 = _c15_17(ctx)
+    return ctx._c15_17
+
+
+def _c15_17(ctx):
+    """ShareSet.split_secret evaluated (random bytes replaced by a fixed stand-in, the GF tables built by _load() in the same evaluation):
+    for (k, n) with k in {1, 2, 3, 5, 16} and n in {k, k+1, 16} it returns n shares with the distinct indexes 0..n-1; for k = 1 every share
+    is the secret itself; for k >= 2 the first k, the last k and an interleaved choice of k shares interpolate to the secret at x = 255 and
+    to one and the same digest share at x = 254.  n shares must exist for every 1 <= k <= n: the property quantifies over all subsets of them"""
+    from sa.cells import ClassRef, Evaluator, Raised, Undecided
+    spec = "shamir:ShareSet.split_secret"
+    mod, fn = rl.get(ctx, spec)
+    C = ClassRef("shamir", "ShareSet")
+    counter = [0]
+
+    def randbits(nbits):
+        counter[0] += 1
+        return (counter[0] * 0x9E3779B1 + 0x1234567) & ((1 << nbits) - 1)
+    secret = bytes(range(0x41, 0x51))
+    pairs = sorted({(k, n) for k in (1, 2, 3, 5, 16) for n in (k, k + 1, 16) if k <= n <= 16})
+    try:
+        ev = Evaluator(ctx.repo, externals={"randbits": randbits}, max_steps=10 ** 8)
+        ev.call("shamir:ShareSet._load", [], self_obj=C)
+        for k, n in pairs:
+            ctx.count("cells")
+            try:
+                data = ev.call(spec, [secret, k, n], self_obj=C)
+            except Raised as x:
+                return [ctx.bad(spec, "split_secret(secret, %d, %d) raises %s" % (k, n, x.name), fn, mod, key="split-count")]
+            idx = [d[0] for d in data] if isinstance(data, list) else None
+            if idx is None or sorted(idx) != list(range(n)):
+                return [ctx.bad(spec, "a %d-of-%d split returns %s share(s) with indexes %s; %d shares with the indexes 0..%d are expected (all subsets of the n shares must exist)" % (
+                    k, n, len(data) if isinstance(data, list) else "no", idx, n, n - 1), fn, mod, key="split-count")]
+            if k == 1:
+                if any(d[1] != secret for d in data):
+                    return [ctx.bad(spec, "a 1-of-%d split returns a share that is not the secret itself: one share alone does not recover it" % n, fn, mod, key="split-count")]
+                continue
+            by = dict(data)
+            choices = {tuple(range(k)), tuple(range(n - k, n)), tuple(sorted(list(range(0, n, 2))[:k] + list(range(1, n, 2)))[:k])}
+            digests = set()
+            for ch in choices:
+                sd = [(i, by[i]) for i in ch]
+                got = ev.call("shamir:ShareSet.interpolate", [255, sd], self_obj=C)
+                if got != secret:
+                    return [ctx.bad(spec, "shares %s of a %d-of-%d split do not interpolate to the secret at x = 255" % (list(ch), k, n), fn, mod, key="split-count")]
+                digests.add(ev.call("shamir:ShareSet.interpolate", [254, sd], self_obj=C))
+            if len(digests) != 1:
+                return [ctx.bad(spec, "different choices of %d shares of a %d-of-%d split give different digest shares" % (k, k, n), fn, mod, key="split-count")]
+    except Undecided as u:
+        return [ctx.err(spec, "split_secret not evaluable: %s" % u, fn, mod)]
+    return [ctx.ok(spec, "%d (k, n) pairs: n shares with indexes 0..n-1; every tried choice of k of them recovers the secret" % len(pairs), fn, mod, key="split-count")]
+
+
+
 OBLIGATIONS = [
+    ("C15.17", "CELLS split count", c15_17),
     ("C15.16", "CELLS share set consistency", c15_16),
     ("C15.15", "CELLS share field domain", c15_15),
     ("C15.14", "CELLS GF(256)", c15_14),
